@@ -942,7 +942,7 @@ MANIFEST = {
         "unreachable through emd_hat_impl's construction except at the artificial node."),
     "level_note": (
         "Trusted: Coq kernel + vm_compute; extraction (ExtrOcamlBasic only) and the S-expression driver; the Python harness. "
-        "NOT proved (named in Props/C10.v): that the graph reduction is value-preserving (graph_reduction_correct_on); that the run never fails (mcf_no_fail_if_flag_clear: the augmentation half is proved, C10_mcf_no_fail_if_flag_clear_partial - a step with a clear flag can only fail in the search; csp_total and deficit_reachable are open); "
+        "NOT proved (named in Props/C10.v): that the graph reduction is value-preserving (graph_reduction_correct_on); that the run never fails (mcf_no_fail_if_flag_clear: the augmentation half is proved, C10_mcf_no_fail_if_flag_clear_partial - a step with a clear flag fails only if compute_shortest_path returns None; csp_total is open); "
         "that the artificial node is never used (the flag is never set: checked per case, 0 of ~150 000 runs). The "
         "end-to-end statement therefore still rests on the certificate computed inside the algorithm-level model and on the "
         "per-case certificate check of the implementation's output. int is modelled by Z; int32 overflow of the answer is "
